@@ -446,6 +446,39 @@ fn gen_notation(prop: &str, n: usize, rng: &mut StdRng, sink: &mut Sink) {
                 let t = notation::mutate(rng, &r.as_fen());
                 sink.emit(&notation::fen_parse_event(&t));
             }
+            // boards REACHED by special moves and captures (rights, marks and counters as make_move left them,
+            // not as a parser or the validator would normalise them)
+            let mut reached = 0usize;
+            for b in positions.iter() {
+                if reached >= 2 * n + 200 {
+                    break;
+                }
+                // promotions and castlings first, then at most a dozen others per position
+                let mut ms: Vec<owlchess::Move> = owlchess::movegen::legal::gen_all(b).iter().copied().collect();
+                ms.sort_by_key(|m| match m.kind() {
+                    owlchess::moves::MoveKind::Simple => 2,
+                    owlchess::moves::MoveKind::PawnDouble => 1,
+                    _ => 0,
+                });
+                let mut here = 0usize;
+                for m in ms.iter() {
+                    if here >= 12 {
+                        break;
+                    }
+                    let special = m.kind() != owlchess::moves::MoveKind::Simple
+                        || b.get(m.dst()).piece() == Some(owlchess::Piece::Rook)
+                        || m.src_cell().piece() == Some(owlchess::Piece::Rook)
+                        || m.src_cell().piece() == Some(owlchess::Piece::King);
+                    if special {
+                        if let Ok(Ok(nb)) = std::panic::catch_unwind(std::panic::AssertUnwindSafe(|| b.make_move(*m))) {
+                            sink.begin(&json!({"prop": prop, "fen": b.as_fen(), "move": m.to_string()}));
+                            sink.emit(&notation::fen_board_event(&nb));
+                            reached += 1;
+                            here += 1;
+                        }
+                    }
+                }
+            }
             // the longest FENs there are (89..93 bytes): dense boards, all rights, e.p., five-digit counters
             for i in 0..(n / 8).max(24) {
                 let b = if i < posgen::DENSE_FENS.len() { owlchess::Board::from_fen(posgen::DENSE_FENS[i]).unwrap() } else { posgen::dense(rng) };
